@@ -252,6 +252,24 @@ def main(argv=None):
         per_harness.append(dict(harness=h.name, backend=h.backend, kind=h.kind, obligations=ho, discharged=hd,
                                 covers=hcov, paths=o['stats'].get('paths'), wall_s=round(o['wall_s'], 2),
                                 functions=h.functions, executed=sorted(o['functions'])))
+    # loop-contract obligations refuted alone, with a passing bounded stand-in that does not use the loop contract:
+    # the proof is out of date, but nothing indicates that the property is violated -> undecided (DESIGN 8.9)
+    aux = re.compile(r'#loop\d+\.(inv_entry|inv_preserved|variant_decreases)')
+    by_h = {}
+    for h, r in violations:
+        by_h.setdefault(h.name, []).append(r)
+    clean = {o['name'] for o in outs if not o['errors'] and not any(r['status'] == 'refuted' for r in o['results'])}
+    demoted = set()
+    for hn, rs in by_h.items():
+        h = byname[hn]
+        if h.fallback and all(aux.search(r['name']) for r in rs):
+            fb = [n for n in byname if re.search(h.fallback, n)]
+            if fb and all(n in clean for n in fb):
+                demoted.add(hn)
+                for r in rs:
+                    undecided.append('%s#%s: loop contract no longer matches the code (obligation refuted), but the bounded stand-in %s '
+                                     'decides the clauses without it and passes' % (hn, r['name'], ', '.join(fb)))
+    violations = [(h, r) for h, r in violations if h.name not in demoted]
     status = 0
     lines = []
     for kl in sorted(set(known_lines)):
